@@ -625,6 +625,9 @@ func (ls *locksetState) access(m *Machine, cell interface{}, write bool, pos tok
 	report := func(kind string, other epoch) {
 		if where == "" {
 			where = m.pos(pos)
+			if pos == token.NoPos && site != "" {
+				where = shortFile(site) // an access made by an intrinsic: name the calling statement
+			}
 		}
 		for _, s := range []string{site, other.site} {
 			dup := s == ""
@@ -668,11 +671,11 @@ func (ls *locksetState) access(m *Machine, cell interface{}, write bool, pos tok
 				report("write", epoch{rg, r.c, "read at " + r.pos, r.site})
 			}
 		}
-		ci.w = epoch{g, vc[g], m.pos(pos), site}
+		ci.w = epoch{g, vc[g], m.posOrSite(pos, site), site}
 		ci.hasW = true
 		ci.reads = map[int]epoch{}
 	} else {
-		ci.reads[g] = epoch{g, vc[g], m.pos(pos), site}
+		ci.reads[g] = epoch{g, vc[g], m.posOrSite(pos, site), site}
 	}
 }
 
@@ -812,4 +815,11 @@ func (m *Machine) selectOp(fr *frame, instr *ssa.Select) Value {
 		m.condWaiters = append(m.condWaiters, m.cur)
 		m.block("select at " + m.pos(instr.Pos()))
 	}
+}
+
+func (m *Machine) posOrSite(pos token.Pos, site string) string {
+	if pos == token.NoPos && site != "" {
+		return shortFile(site)
+	}
+	return m.pos(pos)
 }
